@@ -96,12 +96,12 @@ def balance(rs, cost, shard):
 
 
 def evaluate(ck, recs):
-    broken = [r for r in recs if (r.get("panic") or "").startswith(("setup:", "Append:"))]
+    broken = [r for r in recs if (r.get("panic") or "").startswith(("setup:", "Append:", "CalculateRoot:"))]
     recs = [r for r in recs if r not in broken]
     for r in broken:
         ck.count()
         f = dict(kind="input", key="c11:%s:setup-failure" % r["k"], case=r,
-                 what="rmt %s: building the tree failed: %s on %s" % (r["k"], r["panic"], json.dumps(r)[:300]),
+                 what="rmt %s: building the tree / batch root failed: %s on %s" % (r["k"], r["panic"], json.dumps(r)[:300]),
                  theorem_or_correspondence="harness c11 vs pkg/trie/rmt")
         f["spec_violated"] = True
         ck.failures.append(f)
